@@ -676,6 +676,8 @@ pub fn block(key: usize, deadline: Option<u64>, bg: bool) -> bool {
     if me == usize::MAX {
         die(2, "VERDICT budget harness-block-from-unregistered-thread");
     }
+    // a deadline at the end of time (a saturated huge duration) is no deadline
+    let deadline = deadline.filter(|d| *d < (1u64 << 62));
     let mut g = lock();
     let s = g.as_mut().unwrap();
     if s.th[me].np != 0 {
